@@ -272,11 +272,20 @@ func headOf(doc []byte) []byte {
 // generators
 
 var keyNames = []string{"mykey", "k", "key/1", "vault key with spaces", "ключ-ü/3", `a<b>&c"q\d`, "line\nfeed\ttab", "😀/v2",
+	// characters on which JSON string escaping and other quoting conventions (Go, C) part ways
+	"bell\aname", "vt\vff\fbs\bcr\r", "esc\x1bname", "del\x7fname", "nul\x00soh\x01us\x1f", "ls\u2028ps\u2029", "tag-\U000e0001-name",
+	"bom\ufeffnbsp\u00a0shy\u00ad", "c1\u0080\u009f", "pua\ue000\U0010fffd", "nonchar\ufffe\uffff", "repl\ufffdment",
 	"a-rather-long-key-name-that-makes-the-header-longer-than-the-five-hundred-and-twelve-bytes-read-at-once-" +
 		"0123456789012345678901234567890123456789012345678901234567890123456789012345678901234567890123456789" +
 		"0123456789012345678901234567890123456789012345678901234567890123456789012345678901234567890123456789" +
 		"0123456789012345678901234567890123456789012345678901234567890123456789012345678901234567890123456789" +
 		"0123456789012345678901234567890123456789012345678901234567890123456789012345678901234567890123456789"}
+
+// keyNameRunes: valid Unicode scalar values from every class a string encoder may single out (C0 controls with and without
+// a short JSON escape, DEL, C1, quote / backslash / solidus, HTML-sensitive, line separators, format and tag characters,
+// private use, non-characters, astral printable and non-printable, U+FFFD itself).
+var keyNameRunes = []rune{0x00, 0x01, 0x06, 0x07, 0x08, 0x09, 0x0a, 0x0b, 0x0c, 0x0d, 0x0e, 0x1b, 0x1f, ' ', '"', '\\', '/', '<', '>', '&', '\'', 'a', 'Z', '0', 0x7e, 0x7f,
+	0x80, 0x85, 0x9f, 0xa0, 0xad, 0xe9, 0x3a9, 0x2028, 0x2029, 0x200b, 0x202e, 0xd7ff, 0xe000, 0xfeff, 0xfffd, 0xfffe, 0xffff, 0x10000, 0x1f600, 0xe0001, 0xe007f, 0x10fffd, 0x10ffff}
 
 func genLen(rt *rapid.T) int {
 	switch rapid.IntRange(0, 9).Draw(rt, "lenClass") {
@@ -339,6 +348,11 @@ func genCase(rt *rapid.T) rtCase {
 	c.Retain = rapid.IntRange(0, 3).Draw(rt, "retain") == 0
 	c.RSA = rapid.SampledFrom([]int{0, 0, 0, 0, 0, 1, 1, 1, 1, 1, 2, 2, 3}).Draw(rt, "rsa") // 2048, 3072, 4096, 8192 bits
 	base := rapid.SampledFrom(keyNames).Draw(rt, "keyName")
+	if rapid.IntRange(0, 3).Draw(rt, "keyNameDrawn") == 0 {
+		// any valid UTF-8 string of 1..12 runes taken from the classes that encoders treat differently
+		rs := rapid.SliceOfN(rapid.SampledFrom(keyNameRunes), 1, 12).Draw(rt, "keyNameRunes")
+		base = string(rs)
+	}
 	c.KeyName = base
 	if rapid.Bool().Draw(rt, "hasDecName") {
 		c.DecName = rapid.SampledFrom(keyNames).Draw(rt, "decBase") + "#dec"
